@@ -855,6 +855,12 @@ fn check_ignored_hidden(sim: &mut Sim) {
         let (el, ec) = reference::index_to_pos(&r.source, e);
         let published = sim.client.last_publish(&uri).map(|p| p.diags.clone()).unwrap_or_default();
         if published.iter().any(|d| (d.sl, d.sc, d.el, d.ec) == (sl, sc, el, ec) && d.message == l.message) {
+            // in a code file the words of the identifiers are dictionary words: did an edit elsewhere
+            // add or remove the last occurrence of a word of this lint's neighbourhood?
+            let count = |text: &str, w: &str| text.to_lowercase().split(|c: char| !c.is_alphanumeric()).filter(|x| *x == w).count();
+            let then = sim.client.ignored.iter().find(|i| i.req_id == req).map(|i| i.text_at_ignore.clone()).unwrap_or_default();
+            let is_code = crate::corpus::CODE_LANGS.contains(&doc.lang.as_str());
+            let ident_changed = is_code && near.iter().any(|w| !w.is_empty() && count(&then, w) != count(&doc.text, w));
             sim.res.violate(Violation {
                 property: "C14".into(),
                 oracle: "C14.ignored_stays_hidden".into(),
@@ -863,7 +869,7 @@ fn check_ignored_hidden(sim: &mut Sim) {
                     "{uri} ({}): the lint '{}' on '{}' at {s}..{e} was ignored with HarperIgnoreLint; neither it nor the tokens within two characters of it were edited and the document stayed open, yet the server publishes it again",
                     doc.lang, l.message, id.flagged
                 ),
-                facts: json!({"through": "harper-ls", "words_added": sim.client.added.len(), "config_changes": sim.client.settings_history.len()}),
+                facts: json!({"through": "harper-ls", "words_added": sim.client.added.len(), "config_changes": sim.client.settings_history.len(), "identifier_changed": ident_changed}),
             });
             return;
         }
